@@ -2,7 +2,7 @@
 its own mapping."""
 from ..spec import Acc, Term, Einsum, Spec
 from . import mapping as M
-from .einsum import RANKS, _acc, random_rank_orders
+from .einsum import RANKS, _acc, random_rank_orders, pick_pool
 
 OUTS = ["T", "U", "V", "Z"]
 
@@ -28,6 +28,7 @@ def gen_cascade(rnd, n=None, mapped=True):
     produced = []          # names
     tags = ["cascade%d" % n]
     consumed = {}
+    RP = list(pick_pool(rnd))[:4]
     for i in range(n):
         out = OUTS[i] if i < n - 1 else "Z"
         # inputs from earlier Einsums
@@ -46,11 +47,11 @@ def gen_cascade(rnd, n=None, mapped=True):
             for r in decl[p]:
                 if r not in base:
                     base.append(r)
-        pool = [r for r in RANKS[:4] if r not in base]
+        pool = [r for r in RP if r not in base]
         extra = rnd.sample(pool, min(len(pool), rnd.choice([0, 1, 1, 2]))) if pool else []
         ranks = base + extra
         if not ranks:
-            ranks = [rnd.choice(RANKS[:4])]
+            ranks = [rnd.choice(RP)]
         if len(ranks) > 3:
             ranks = ranks[:3] if all(r in ranks[:3] for r in base) else ranks
         nterms = 1 if rnd.random() < 0.65 else 2
